@@ -113,12 +113,33 @@ def run(ctx):
         t, out = c04.plan_time(tr)
         return job, tr, t
     known = {f["id"] for f in common.known_active(PID)}
+    rate_searched = [0]
     for h in cr.pmap(hyp, res):
         if h is None:
             continue
         job, tr, t = h
         linear = float(job["cfg"].get("phase", 50)) == 50 and not (int(job["cfg"].get("recipe", 4)) & 0x30)
         f1 = [k for k in cr.classify_known(tr.plan, job["cfg"]) if k in known]
+        # the rate product of the plan is the requested ratio (exactly, or within 2^-32 of the longer period per frame: C04 drift_bound) - what
+        # `total_exact` and the ceil bound take for granted.  A plan that runs at another rate is searched for a call that delivers early.
+        if t is not None and "rate" in t:
+            want = Fraction(float(job["cfg"]["ir"])) / Fraction(float(job["cfg"]["or"]))
+            err = abs(Fraction(t["rate"]) - want) / max(Fraction(1), want)
+            if err > Fraction(1, 2 ** 32) and rate_searched[0] < 6:
+                rate_searched[0] += 1
+                N = int(min(40000, max(4000, 4000 * float(want))))
+                est = int(N / float(want)) * 3 + 1000
+                ops = [cr.create_line(job["cfg"]), "limit %d" % N] + ["feed %d %d 0" % (N // 8 + 1, est)] * 9 + ["drain %d" % est, "hash"]
+                t2 = cr.run_trace(exe, ops, job["env"], timeout=120)
+                bad2, _ = oracle(dict(job, N=N), t2) if t2.rc == 0 else ([("crash", "harness exit %s: %s" % (t2.rc, t2.err[-300:]))], {})
+                if bad2:
+                    ctx.violation("C03 fails on the real code: %s (%s %s) - found by searching a configuration whose plan runs at rate %s instead of %s"
+                                  % (bad2[0][1], cr.create_line(job["cfg"]), job["env"], t["rate"], want),
+                                  {"cfg": job["cfg"], "env": job["env"], "N": N, "ops": ops, "oracle": bad2, "plan": tr.plan})
+                else:
+                    ctx.violation("the rate product %s of the exported plan is not the requested ratio %s (%s %s); generous output requests found no early delivery"
+                                  % (t["rate"], want, cr.create_line(job["cfg"]), job["env"]), {"cfg": job["cfg"], "env": job["env"], "plan": tr.plan, "time": t}, no_input=True)
+                continue
         if linear:
             # centred filters: the theorem's hypotheses in their strong form (never_early, never_early_round)
             ctx.count("plans_never_early_hypotheses_checked")
